@@ -13,7 +13,7 @@ def sweep(ctx, n):
 
     rng, fails, done, kinds = ctx.rng, [], 0, {}
     KINDS = ["cuboid-split", "cuboid-mesh-tetra-triangles", "cylinder-segments", "sphere-dipole", "mesh-converters", "polyline-circle",
-             "polyline-split", "segment-angle-turns", "cuboid-mesh-lattice"]
+             "polyline-split", "segment-angle-turns", "cuboid-mesh-lattice", "mesh-row"]
 
     def rel(a, b):
         return float(np.max(np.abs(a - b)) / (np.max(np.abs(b)) + 1e-300))
@@ -110,6 +110,22 @@ def sweep(ctx, n):
                 ref = magpy.getB(cub, pts)
                 err = max(rel(magpy.getB(m, pts), ref) for m in meshes)
                 err = max(err, max(rel(magpy.getJ(m, pts), magpy.getJ(cub, pts)) for m in meshes))
+            elif kind == "mesh-row":
+                # a row of boxes, once as Cuboids and once as TriangularMeshes with equal face counts (same mesh re-appearing
+                # after a different one, concentric sizes ...): the two rows and the sums over single bodies agree for B, H, J
+                from oracles.sources import lattice_points, mesh_row
+                arrangement, meshes, cubs, dims, poss, oris = mesh_row(rng, nps, rotate=True)
+                obs = []
+                for d, q, o in zip(dims, poss, oris):
+                    loc = np.concatenate([lattice_points(d, nps, 4), nps.uniform(-0.45, 0.45, (3, 3)) * d, nps.uniform(0.55, 1.2, (3, 3)) * d * nps.choice([-1, 1], (3, 3))])
+                    obs.append((o.apply(loc) if o is not None else loc) + q)
+                obs = np.concatenate(obs)
+                for g in (magpy.getB, magpy.getH, magpy.getJ):
+                    a, b = g(meshes, obs), g(cubs, obs)
+                    single = np.array([g(ms, obs) for ms in meshes])
+                    sc = np.max(np.abs(b)) + 1e-300
+                    err = max(err, float(np.max(np.abs(a - b)) / sc), float(np.max(np.abs(a - single)) / sc),
+                              float(np.max(np.abs(g(magpy.Collection(*[ms.copy() for ms in meshes]), obs) - b.sum(axis=0))) / sc))
             elif kind == "sphere-dipole":
                 d = nps.uniform(0.5, 2)
                 sph = magpy.magnet.Sphere(diameter=d, polarization=pol, position=pos)
